@@ -10,6 +10,7 @@ import (
 	"errors"
 	"fmt"
 	"io"
+	"runtime"
 	"strings"
 	"sync"
 
@@ -24,7 +25,9 @@ import (
 
 // ---------- deterministic randomness for the implementation ----------
 
-// tapeMu serialises every use of the process-wide crypto/rand.Reader replacement.
+// The process-wide crypto/rand.Reader is replaced ONCE by a dispatcher: reads made by
+// the goroutine that currently holds a tape come from the tape, every other read
+// (other workers generating keys, wrapping test stanzas …) goes to the real CSPRNG.
 var tapeMu sync.Mutex
 
 type tapeReader struct {
@@ -43,14 +46,56 @@ func (t *tapeReader) Read(p []byte) (int, error) {
 	return len(p), nil
 }
 
-// withTape runs f with crypto/rand.Reader replaced by a tape; returns the draw sizes.
+type dispatchReader struct {
+	real io.Reader
+	mu   sync.Mutex
+	tape *tapeReader
+	gid  uint64
+}
+
+func curGID() uint64 {
+	var buf [64]byte
+	n := runtime.Stack(buf[:], false)
+	// "goroutine 123 [running]:"
+	var id uint64
+	for _, c := range buf[len("goroutine "):n] {
+		if c < '0' || c > '9' {
+			break
+		}
+		id = id*10 + uint64(c-'0')
+	}
+	return id
+}
+
+func (d *dispatchReader) Read(p []byte) (int, error) {
+	d.mu.Lock()
+	t, g := d.tape, d.gid
+	d.mu.Unlock()
+	if t != nil && curGID() == g {
+		return t.Read(p)
+	}
+	return d.real.Read(p)
+}
+
+var dispatcher = func() *dispatchReader {
+	d := &dispatchReader{real: crand.Reader}
+	crand.Reader = d
+	return d
+}()
+
+// withTape runs f with the calling goroutine's crypto/rand reads served from a tape; returns the draw sizes.
 func withTape(tape []byte, f func()) (draws []int, used int) {
 	tapeMu.Lock()
 	defer tapeMu.Unlock()
-	old := crand.Reader
 	t := &tapeReader{data: tape}
-	crand.Reader = t
-	defer func() { crand.Reader = old }()
+	dispatcher.mu.Lock()
+	dispatcher.tape, dispatcher.gid = t, curGID()
+	dispatcher.mu.Unlock()
+	defer func() {
+		dispatcher.mu.Lock()
+		dispatcher.tape = nil
+		dispatcher.mu.Unlock()
+	}()
 	f()
 	return t.draws, t.pos
 }
@@ -409,4 +454,13 @@ func fdecCase(kind string, file []byte, ids []age.Identity, idDs []string, note 
 	}
 	return &h.Case{Kind: kind, Line: fmt.Sprintf("fdec %s %s", joinD(idDs), h.Hex(file)), Impl: impl, Oracle: or,
 		NonTrivial: true, Canon: canonDec, Note: note}
+}
+
+func hexDecode(s string) ([]byte, error) {
+	if s == "-" {
+		return nil, nil
+	}
+	b := make([]byte, len(s)/2)
+	_, err := fmt.Sscanf(s, "%x", &b)
+	return b, err
 }
